@@ -94,19 +94,53 @@ class Exec:
                             for t in (st.targets if isinstance(st, ast.Assign) else [st.target]) if isinstance(t, ast.Name)}
         self.foreign_bases = [src(b) for b in cls.bases if src(b) != "object"]
 
+    def refuses_without(self, m, flag, before=None, depth=2):
+        """does the method refuse (assert / raise), in its top-level statements (those before line `before`), when `self.<flag>` is
+        false?  Recognised: `assert <test with self.flag>`; `if not self.flag [or ...]: ... raise`; a call of a method of the class that does"""
+        for st in m.body:
+            if before is not None and getattr(st, "lineno", 0) >= before:
+                break
+            if isinstance(st, ast.Assert) and flag in src(st.test):
+                return True
+            if isinstance(st, ast.If) and st.body and isinstance(st.body[-1], ast.Raise):
+                t = st.test
+                alts = t.values if isinstance(t, ast.BoolOp) and isinstance(t.op, ast.Or) else [t]
+                if any(isinstance(x, ast.UnaryOp) and isinstance(x.op, ast.Not) and src(x.operand) == f"self.{flag}" for x in alts):
+                    return True
+            if depth > 0 and isinstance(st, ast.Expr) and isinstance(st.value, ast.Call) and isinstance(st.value.func, ast.Attribute) \
+                    and isinstance(st.value.func.value, ast.Name) and st.value.func.value.id == "self" \
+                    and st.value.func.attr in self.methods and st.value.func.attr != m.name \
+                    and self.refuses_without(self.methods[st.value.func.attr], flag, None, depth - 1):
+                return True
+        return False
+
     def role_needed(self, L, I, g):
         """is `self.L[self.I]` evaluated by a method on a path the flags of this state allow?  (an index beyond the collection is
-        harmless while the only uses are behind `assert self.hasSaveMemory`)"""
+        harmless while the only uses are behind `assert self.hasSaveMemory`).  True / False / None: not established (the method calls
+        other methods or raises before the use: whether they refuse the call in this state was not recognised)"""
         needle = f"self.{L}[self.{I}]"
+        verdict = False
         for m in self.methods.values():
             if m.name == "__init__" or needle not in src(m).replace(" ", ""):
                 continue
+            uses = [n for n in ast.walk(m) if isinstance(n, ast.Subscript) and src(n).replace(" ", "") == needle]
+            first = min([getattr(n, "lineno", 0) for n in uses] or [0])
             guarded = any(isinstance(st, ast.Assert) and "hasSaveMemory" in src(st.test) for st in m.body) or \
-                all(any("hasSaveMemory" in src(t) for t, pol, kind in _guards(n, m)) for n in ast.walk(m)
-                    if isinstance(n, ast.Subscript) and src(n).replace(" ", "") == needle)
-            if not guarded or g.a.get("hasSaveMemory") is True:
+                all(any("hasSaveMemory" in src(t) for t, pol, kind in _guards(n, m)) for n in uses) or \
+                self.refuses_without(m, "hasSaveMemory", first)
+            if g.a.get("hasSaveMemory") is True:
                 return True
-        return False
+            if not guarded:
+                # ASSUMPTION of `evaluated without save memory`: nothing before the use refuses the call.  A call of another method of
+                # the grid, a raise or an assert before the use that was not recognised as such a refusal leaves it open
+                early = [x for st in m.body if getattr(st, "lineno", 0) < first for x in ast.walk(st)]
+                if any(isinstance(x, (ast.Raise, ast.Assert)) or
+                       (isinstance(x, ast.Call) and isinstance(x.func, ast.Attribute) and isinstance(x.func.value, ast.Name)
+                        and x.func.value.id == "self" and x.func.attr in self.methods) for x in early):
+                    verdict = None
+                    continue
+                return True
+        return verdict
 
     def current_layout(self, g):
         """what the public `currentLayout` property answers in this state"""
@@ -381,10 +415,14 @@ class Exec:
                 if any(isinstance(a, ast.Starred) for a in c.args) or len(c.args) > len(params) or callee.args.vararg or callee.args.kwarg:
                     raise ModelError(f"call `{src(st)[:60]}` of a method of the grid not modelled")
                 bound = {p_: self.ev(a, g, loc) for p_, a in zip(params, c.args)}
+                kwonly = {a.arg: d for a, d in zip(callee.args.kwonlyargs, callee.args.kw_defaults)}
                 for k in c.keywords:
-                    if k.arg not in params:
+                    if k.arg is None or (k.arg not in params and k.arg not in kwonly) or k.arg in bound:
                         raise ModelError(f"call `{src(st)[:60]}` of a method of the grid not modelled")
                     bound[k.arg] = self.ev(k.value, g, loc)
+                for p_, d in kwonly.items():
+                    if p_ not in bound and d is None:
+                        raise ModelError(f"call `{src(st)[:60]}`: keyword-only argument `{p_}` missing")
                 dflt = dict(zip(params[len(params) - len(callee.args.defaults):], callee.args.defaults))
                 for p_ in params:
                     if p_ not in bound:
@@ -552,8 +590,13 @@ def roles(ex, g):
                 i = g.a[I]
                 if -len(g.a[L]) <= i < len(g.a[L]):
                     out.append((f"self.{L}[self.{I}]", g.a[L][i][1]))
-                elif ex.role_needed(L, I, g):
-                    out.append((f"self.{L}[self.{I}]", None))
+                else:
+                    need = ex.role_needed(L, I, g)
+                    if need is None:
+                        raise AnalysisError(f"C04: `self.{L}[self.{I}]` lies outside the collection in a state of the grid, and whether a method "
+                                            "evaluates it there (or refuses the call first) could not be established")
+                    if need:
+                        out.append((f"self.{L}[self.{I}]", None))
     return out
 
 
